@@ -14,6 +14,7 @@ def _job_chunk(jobs):
     warnings.simplefilter("ignore")
     from . import render_stmt as R
     from . import stmt_drv as d
+    import sqllineage.runner  # noqa: import the library before any scoped configuration is entered (import-time defaults)
     out = []
     for j in jobs:
         opts = R.Opts(**j.get("opts", {}))
